@@ -66,6 +66,7 @@ type Goroutine struct {
 	result Value
 	justYielded bool
 	yielded     bool
+	vc          vclock
 }
 
 type Violation struct {
@@ -117,6 +118,8 @@ type Interp struct {
 	journal   []jEntry
 	journalOn bool
 	specDepth int
+	race      raceState
+	tickSeq   int64
 	// assumptions made inside the speculative arms being executed (re-added, guarded by the
 	// arm's condition, when the arms are merged)
 	specAssumes []*Term
@@ -645,6 +648,14 @@ func (in *Interp) invoke(g *Goroutine, fv *FuncV, args []Value, retReg int, onRe
 		if len(fv.bindings) > 0 {
 			all = append(append([]Value{}, fv.bindings...), args...)
 		}
+		if in.race.on && len(all) > 0 {
+			// atomics and sync.Map operations are sequentially consistent synchronisation
+			if pp := pkgPathOf(fn); pp == "sync/atomic" || (pp == "sync" && strings.HasPrefix(name, "(*sync.Map).")) {
+				if p, isPtr := all[0].(PtrV); isPtr && p.obj != nil && p.sym == nil {
+					in.raceAcqRel(g, raceKey{p.obj, p.off, 2})
+				}
+			}
+		}
 		res, tail := h(in, g, fn, all)
 		if tail != nil {
 			in.invoke(g, tail.fn, tail.args, retReg, onRet, isDefer)
@@ -817,6 +828,9 @@ func (in *Interp) step(g *Goroutine) {
 	case *ssa.Jump:
 		in.jump(fr, fr.block.Succs[0])
 	case *ssa.Lookup:
+		if m, ok := in.get(fr, x.X).(*MapV); ok {
+			in.raceMap(g, m, false, x)
+		}
 		in.lookup(fr, x)
 	case *ssa.MakeChan:
 		sz := in.concretizeInt(in.get(fr, x.Size).(*Term), 0, 1024, "chan size")
@@ -851,6 +865,7 @@ func (in *Interp) step(g *Goroutine) {
 		if m == nil {
 			in.goPanic("assignment to entry in nil map")
 		}
+		in.raceMap(g, m, true, x)
 		in.mapSet(m, in.get(fr, x.Key), in.get(fr, x.Value))
 	case *ssa.Next:
 		in.next(fr, x)
@@ -861,6 +876,9 @@ func (in *Interp) step(g *Goroutine) {
 	case *ssa.Phi:
 		panic("phi executed directly")
 	case *ssa.Range:
+		if m, ok := in.get(fr, x.X).(*MapV); ok {
+			in.raceMap(g, m, false, x)
+		}
 		in.set(fr, x, in.makeRange(in.get(fr, x.X), x.X.Type()))
 	case *ssa.Return:
 		var res Value
@@ -902,6 +920,7 @@ func (in *Interp) step(g *Goroutine) {
 		}
 	case *ssa.Store:
 		p := in.get(fr, x.Addr).(PtrV)
+		in.raceMem(g, p, in.cellsOf(x.Val.Type()), true, x)
 		in.store(p, x.Val.Type(), in.get(fr, x.Val))
 	case *ssa.TypeAssert:
 		in.typeAssert(fr, x)
@@ -985,6 +1004,7 @@ func (in *Interp) doCall(g *Goroutine, fr *Frame, c *ssa.CallCommon, val ssa.Val
 func (in *Interp) spawn(fv *FuncV, args []Value) *Goroutine {
 	in.gseq++
 	g := &Goroutine{id: in.gseq}
+	in.raceFork(in.cur, g)
 	in.gs = append(in.gs, g)
 	in.invoke(g, fv, args, -1, nil, false)
 	if len(g.stack) == 0 {
